@@ -227,6 +227,43 @@ func strLen(t *Term) *Term {
 	return App("strlen", SInt, t)
 }
 
+// StrCat: concatenation in canonical form - nested concatenations are flattened, adjacent literals merged, empty
+// literals dropped, the rest nested to the right - so that "a" + s, fmt.Sprintf("a%s", s) and "" + "a" + s are one term.
+func StrCat(parts ...*Term) *Term {
+	var flat []*Term
+	var walk func(t *Term)
+	walk = func(t *Term) {
+		if t.Op == "app" && t.Name == "strcat" && len(t.Args) == 2 {
+			walk(t.Args[0])
+			walk(t.Args[1])
+			return
+		}
+		if l, ok := litOf(t); ok {
+			if l == "" {
+				return
+			}
+			if n := len(flat); n > 0 {
+				if pl, pok := litOf(flat[n-1]); pok {
+					flat[n-1] = strLit(pl + l)
+					return
+				}
+			}
+		}
+		flat = append(flat, t)
+	}
+	for _, p := range parts {
+		walk(p)
+	}
+	if len(flat) == 0 {
+		return strLit("")
+	}
+	out := flat[len(flat)-1]
+	for i := len(flat) - 2; i >= 0; i-- {
+		out = App("strcat", SInt, flat[i], out)
+	}
+	return out
+}
+
 // ---- type tags ----
 
 func typeTag(t types.Type) *Term {
